@@ -450,11 +450,15 @@ def _run(ctx, base):
             # a root whose blocks are opened or closed inside an include file is a different document without expansion (it may
             # not parse, or parse with the directive inside a block that a later block of the same kind replaces) - not judged
             self_contained = all(getattr(e, "range_balanced", False) for e in root.entries if isinstance(e, Inc))
+            gated_kv = False
             if self_contained:
                 stack = []
                 for e in root.entries:
                     if isinstance(e, Inc):
-                        if not stack or (stack[-1] in NO_DIRECTIVE_PARENTS and stack[-1] not in ("METADATA", "VALIDATION", "VALUES", "CONNECTIONOPTIONS")):
+                        if stack and stack[-1] in ("METADATA", "VALIDATION", "VALUES", "CONNECTIONOPTIONS") and \
+                                "include-inside-key-value-block-no-expand" in ctx.gated:
+                            gated_kv = True  # listed finding: there the directive is read as a key-value pair (or refused)
+                        elif not stack or stack[-1] in ("PATTERN", "POINTS", "PROJECTION"):
                             self_contained = False  # a directive inside PATTERN / POINTS / PROJECTION is not Mapfile data
                     else:
                         w = e.strip()
@@ -464,8 +468,10 @@ def _run(ctx, base):
                         elif w.isalpha() and w.upper() != "AUTO":
                             stack.append(w.upper())
             try:
-                d = mappyfile.open(root_path, expand_includes=False) if self_contained else None
-                if d is None:
+                d = mappyfile.open(root_path, expand_includes=False) if self_contained and not gated_kv else None
+                if gated_kv and self_contained:
+                    res.count("no_expand_gated:include-inside-key-value-block")
+                elif d is None:
                     res.count("no_expand_root_not_self_contained")
             except Exception as ex:
                 res.violation("no-expand-self-contained-root-not-loaded", {"via": "open(expand_includes=False)", "root": root_path, "depth": depth,
